@@ -18,6 +18,9 @@ def extract(read):
         out.append("def c03SimdProbe : Nat := %s" % m.group(1))
     else:
         out.append("-- c03SimdProbe: NOT FOUND in source (dependent theorem will not build)")
+    bs = sorted(set(re.findall(r"const\s+BATCH_SIZE\s*:\s*usize\s*=\s*(\d+)", simd)))
+    out.append("/-- simd_aggregate.rs: the BATCH_SIZE constants of the streaming kernels (all of them) -/")
+    out.append("def c03SimdBatchSizes : List Nat := [%s]" % ", ".join(bs))
     out.append("/-- columnar_execution.rs `should_use_columnar`: statement parts whose presence makes the gate return false -/")
     out.append("def c03GateRejects : List String := [%s]" % ", ".join('"%s"' % r for r in rejected))
     return "\n".join(out) + "\n"
